@@ -254,6 +254,8 @@ class Driver:
                     v = repr(v)
                 vals[name] = sim.canon(v)
             self.obs.append({"what": "attrs", "values": vals})
+        elif what == "recursion":
+            self.obs.append({"what": "recursion", "limit": sys.getrecursionlimit()})
         elif what == "uri_roundtrip":
             from . import oracles
 
@@ -436,7 +438,15 @@ def _collect(ctx: dict, sched: dict, status: str) -> dict:
         expanded=driver.expanded,
     )
     if sched.get("want_transcript"):
-        res["transcript"] = oracles.transcript(driver)
+        res["transcript"] = oracles.transcript(driver, sched.get("transcript_from"))
+    if sched.get("want_effects"):
+        eff = oracles.transcript(driver, sched.get("transcript_from", 0))
+        for ob in driver.obs:
+            eff.append(["obs:" + ob["what"], {k: v for k, v in ob.items() if k != "what"}])
+        eff.append(["pool:processes", sim.SimPool.seen_processes])
+        eff.append(["net", ctx["net"]])
+        eff.append(["debug_log", os.path.exists(sim.real(ROOT + "/fortls_debug.log"))])
+        res["effects"] = eff
     if sched.get("want_final"):
         res["final_disk"] = {p: sim.enc_bytes(b) for p, b in sorted(driver.world.files.items())}
         res["final_dirs"] = sorted(driver.world.dirs)
